@@ -353,7 +353,12 @@ func (x *Exec) autoRangeInvariant(st *State, fr *Frame, header *ssa.BasicBlock) 
 			}
 			bound, ok := fr.regs[cmp.Y]
 			if !ok {
-				continue
+				// range over an array (or pointer to array): the bound is the constant length
+				c, isConst := cmp.Y.(*ssa.Const)
+				if !isConst {
+					continue
+				}
+				bound = x.get(st, fr, c)
 			}
 			pv, ok := fr.regs[phi]
 			if !ok {
